@@ -78,6 +78,8 @@ UClasses ==
    NT   |-> Cls("namedtuple", << F("a", TInt), FD("b", TStr, DStr("q")) >>),
    TD   |-> Cls("typeddict", << F("a", TInt), FD("b", TStr, VUndef) >>),
    TDO  |-> Cls("typeddict", << FD("a", TInt, VUndef), FD("b", TColl("list", TInt), VUndef) >>),
+   CAT  |-> Cls("dataclass", << F("a", TInt), [FD("knd", TLit(<<DStr("cat")>>), DStr("cat")) EXCEPT !.alias = "type"] >>),
+   DOG  |-> Cls("dataclass", << [F("knd", TLit(<<DStr("dog"), DStr("d")>>)) EXCEPT !.alias = "type"], FD("b", TStr, DStr("")) >>),
    EF   |-> Cls("dataclass", << F("e", TEnum("EI")), FD("l", TLit(<<DStr("a"), DInt(2)>>), DStr("a")) >>)]
 
 ObjClasses == DOMAIN UClasses
@@ -87,9 +89,10 @@ UAliasers ==
   [id    |-> <<>>,
    upper |-> << <<"a", "A">>, <<"b", "B">>, <<"bb", "BB">>, <<"c", "C">>, <<"d", "D">>, <<"e", "E">>,
                 <<"l", "L">>, <<"s", "S">>, <<"x", "X">>, <<"z", "Z">>, <<"o", "O">>, <<"p", "P">>,
-                <<"f", "F">>, <<"w", "W">> >>]
+                <<"f", "F">>, <<"w", "W">>, <<"type", "TYPE">>, <<"kind", "KIND">> >>]
 
-Opt(addl, fbd, coerce, ali) == [addl |-> addl, fbd |-> fbd, coerce |-> coerce, ali |-> UAliasers[ali], aliname |-> ali]
+Opt(addl, fbd, coerce, ali) == [addl |-> addl, fbd |-> fbd, coerce |-> coerce, ali |-> UAliasers[ali], aliname |-> ali,
+                                impl |-> FALSE, dev |-> {}]
 Ctx(O) == [C |-> UClasses, En |-> UEnums, O |-> O, S |-> UStrAttr]
 
 \* ---- types
@@ -124,23 +127,55 @@ UnionTypes == { TUnion(<<TInt, TFloat>>), TUnion(<<TFloat, TInt>>), TUnion(<<TIn
                 TUnion(<<TUnion(<<TInt, TStr>>), TNone>>),
                 TUnion(<<TAnnot(TInt, << <<"min", 2>> >>), TAnnot(TInt, << <<"max", -2>> >>)>>) }
 
-DUnionTypes == { TDUnion(<<TObj("P1"), TObj("P2")>>, "kind", <<"P1", "P2">>),
-                 TDUnion(<<TObj("P2"), TObj("P3")>>, "kind", <<"x", "y">>),
-                 TDUnion(<<TObj("P1"), TObj("PA"), TObj("FL")>>, "type", <<"P1", "PA", "FL">>) }
+DUnionTypes == { TDUnion(<<TObj("P1"), TObj("P2")>>, "kind", << <<"P1">>, <<"P2">> >>, "default"),
+                 TDUnion(<<TObj("P2"), TObj("P3")>>, "kind", << <<"x">>, <<"y", "zz">> >>, "explicit"),
+                 TDUnion(<<TObj("P1"), TObj("PA"), TObj("FL")>>, "type", << <<"P1">>, <<"PA">>, <<"FL">> >>, "default"),
+                 \* the discriminator is a declared (aliased) Literal field of the alternatives
+                 TDUnion(<<TObj("CAT"), TObj("DOG"), TObj("P1")>>, "type", << <<"cat">>, <<"dog", "d">>, <<"P1">> >>, "default") }
+
+\* typing itself collapses duplicate alternatives (Union[str, str] is str): not distinct types
+RECURSIVE WF(_)
+WF(t) == CASE t.k = "union" -> (\A i, j \in DOMAIN t.alts : i # j => t.alts[i] # t.alts[j])
+                               /\ \A i \in DOMAIN t.alts : WF(t.alts[i])
+           [] t.k = "coll"  -> WF(t.e)
+           [] t.k = "annot" -> WF(t.t)
+           [] t.k = "tuple" -> \A i \in DOMAIN t.es : WF(t.es[i])
+           [] t.k = "map"   -> WF(t.vt)
+           [] OTHER -> TRUE
 
 TypesD0 == Leaves
-TypesD1 == UNION { Ctor1(t) : t \in Leaves } \cup SetTypes \cup MapTypes \cup ObjTypes \cup UnionTypes
-           \cup DUnionTypes \cup { TColl("list", t) : t \in DUnionTypes }
+TypesD1 == { t \in UNION { Ctor1(t) : t \in Leaves } \cup SetTypes \cup MapTypes \cup ObjTypes \cup UnionTypes
+                    \cup DUnionTypes \cup { TColl("list", t) : t \in DUnionTypes } : WF(t) }
 \* depth 2: constructors over a sample of depth-1 types
 D1Sample == { TColl("list", TInt), TOpt(TStr), TMap(TStr, TInt), TTuple(<<TInt, TStr>>), TObj("P2"),
               TObj("FL"), TObj("REC"), TUnion(<<TInt, TStr>>), TColl("set", TInt),
               TAnnot(TColl("list", TInt), << <<"min_items", 1>> >>) }
-TypesD2 == UNION { Ctor1(t) : t \in D1Sample }
+TypesD2 == { t \in UNION { Ctor1(t) : t \in D1Sample } : WF(t) }
+
+\* unions for C13: every ordered pair (and a sample of triples) of alternatives from a pool
+\* containing alternatives that share a JSON type
+UPool == { TInt, TFloat, TBool, TStr, TNone, TAny, TNew("NI", TInt),
+           TAnnot(TInt, << <<"max", 6>> >>), TAnnot(TFloat, << <<"min", 4>> >>), TAnnot(TStr, << <<"min_len", 2>> >>),
+           TLit(<<DInt(1), DInt(2)>>), TLit(<<DStr("a")>>), TEnum("ES"), TEnum("EI"),
+           TColl("list", TInt), TColl("list", TStr), TTuple(<<TInt, TStr>>), TMap(TStr, TInt),
+           TObj("P1"), TObj("P2"), TObj("TD") }
+UTriples == { <<TInt, TFloat, TBool>>, <<TFloat, TInt, TStr>>, <<TStr, TLit(<<DStr("a")>>), TNone>>,
+              <<TObj("P1"), TObj("P2"), TNone>>, <<TColl("list", TInt), TTuple(<<TInt, TStr>>), TStr>>,
+              <<TAnnot(TInt, << <<"max", 6>> >>), TFloat, TNone>>, <<TNone, TInt, TStr>>,
+              <<TEnum("ES"), TStr, TInt>>, <<TBool, TInt, TColl("list", TInt), TMap(TStr, TInt)>>,
+              <<TUnion(<<TInt, TStr>>), TFloat, TNone>> }
+TypesU == { TUnion(<<p[1], p[2]>>) : p \in {q \in UPool \X UPool : q[1] # q[2]} }
+          \cup { TUnion(t) : t \in UTriples }
+          \cup { TColl("list", TUnion(<<p[1], p[2]>>)) :
+                    p \in {q \in {TInt, TFloat, TStr} \X {TFloat, TInt, TNone} : q[1] # q[2]} }
 
 \* ---- data
 Atoms == { DNull, DBool(TRUE), DBool(FALSE), DInt(0), DInt(1), DInt(2), DInt(3), DInt(-1), DInt(7),
            DFloat(3), DFloat(4), DFloat(-3), DStr(""), DStr("a"), DStr("ab"), DStr("abc"), DStr("1"),
            DStr("b"), DArr(<<>>), DObj(<<>>) }
+\* numeric strings, boolean words in several cases, '' : what coercion is about (C14)
+CoerceAtoms == { DStr("true"), DStr("YES"), DStr("no"), DStr("1.5"), DStr("07"), DStr("0"), DStr("-1"), DStr("2"),
+                 DStr("x"), DFloat(4), DFloat(-3) }
 SmallAtoms == { DNull, DBool(TRUE), DInt(1), DInt(3), DFloat(3), DStr("a"), DStr("1"), DArr(<<>>), DObj(<<>>) }
 
 \* a conforming and a non conforming atom for T, when they exist
@@ -160,7 +195,8 @@ Cand(ctx, T, n) ==
                 ELSE PickSome(Cand(ctx, t, n - 1), 2 * W)
       flatKeysOf(cls) == FlatAliases(ctx, cls)
   IN
-  CASE T.k \in {"prim", "any", "lit", "enum"} -> IF n >= 2 THEN Atoms ELSE SmallAtoms
+  CASE T.k \in {"prim", "any", "lit", "enum"} ->
+         (IF n >= 2 THEN Atoms ELSE SmallAtoms) \cup (IF ctx.O.coerce /\ n >= 1 THEN CoerceAtoms ELSE {})
     [] T.k = "newtype" -> Cand(ctx, T.sup, n)
     [] T.k = "annot"   -> Cand(ctx, T.t, n) \cup {DInt(4), DInt(6), DFloat(5), DFloat(10), DFloat(-4), DFloat(-5)}
     [] T.k = "coll"    ->
@@ -183,7 +219,7 @@ Cand(ctx, T, n) ==
     [] T.k = "union"   -> UNION {Cand(ctx, T.alts[i], n) : i \in DOMAIN T.alts}
     [] T.k = "dunion"  ->
          LET al == Ali(ctx, T.alias)
-             tags == {DStr(T.keys[i]) : i \in DOMAIN T.keys} \cup {DStr("zz"), DInt(1)}
+             tags == UNION {{DStr(T.keys[i][j]) : j \in DOMAIN T.keys[i]} : i \in DOMAIN T.keys} \cup {DStr("zz"), DInt(1)}
              base == UNION {PickSome(Cand(ctx, T.alts[i], IF n > 0 THEN n - 1 ELSE 0), 12) : i \in DOMAIN T.alts}
          IN SmallAtoms \cup {x \in base : x.k = "obj"}
               \cup {DObj(x.o \o << <<al, tag>> >>) : x \in {y \in base : y.k = "obj"}, tag \in tags}
